@@ -35,9 +35,11 @@ TRUSTED = [
     "VP-tree, through vp_inv_b on the dumped real tree",
     "std::priority_queue: top is a maximum (the model pops one fixed maximum; theorems speak about distances)",
     "VP-tree pivot draw uniform_random() is an oracle (any in-range value; theorem build_inv quantifies over it)",
-    "cover tree: ct_query_complete is proved for the model of the batch query over any tree satisfying ct_inv; that the "
-    "real batch_create builds such a tree is CHECKED on every dumped tree (ct_inv_b), not proved; pow/log in "
-    "get_scale/dist_of_scale are not modelled (scales are read from the dumped tree)",
+    "cover tree: ct_query_complete_partial is proved for the model of the batch query over any tree satisfying ct_inv_b and "
+    "relative to the audited validity of upper_bound[0]; that the real batch_create builds a tree satisfying ct_inv_b is "
+    "CHECKED on every dumped tree, not proved; batch_create/batch_insert/split/dist_split are modelled "
+    "(CoverTree_Build_Model.v, exact 13/10 arithmetic for pow/log) and the model's tree is compared node by node with the "
+    "dumped real tree, but nothing is proved about that model",
     "kernel flavour: sqrt is monotone and exact on perfect squares; rows are judged through squared distances",
     "extraction (ExtrOcamlBasic only) + OCaml 4.13.1 + coq/extract/c02_driver.ml (parsing/printing)",
     "harness/c02.cpp dump routines; g++ ASan/UBSan/_GLIBCXX_ASSERTIONS as the memory-safety observer",
@@ -408,7 +410,7 @@ def parse_case_output(lines):
     return res
 
 
-def run_impl(ctx, exe, cases, cmdlists, timeout=600):
+def run_impl(ctx, exe, cases, cmdlists, timeout=150):
     """returns list of dicts {lines, crashed, sanitizer, ended} aligned with cases."""
     results = [None] * len(cases)
     start = 0
@@ -523,7 +525,7 @@ def fails_spec(ctx, exe, mexe, c, method, k):
     """does find_neighbors(method, k) violate is_knn_b (or crash) on case c?  -> None | why"""
     if not (1 <= k <= c["N"] - 1):
         return None
-    r = run_impl(ctx, exe, [c], [["F %s %d" % (method, k)]], timeout=60)[0]
+    r = run_impl(ctx, exe, [c], [["F %s %d" % (method, k)]], timeout=20 if c["N"] <= 200 else 120)[0]
     if r["crashed"]:
         return "find_neighbors(%s, k=%d) aborts: %s" % (MNAME[method], k, str(r["sanitizer"])[:400])
     p = parse_case_output(r["lines"])
@@ -557,7 +559,7 @@ def report_violation(ctx, exe, mexe, c, method, k, why):
     if _REPORTED[key] > 2:
         return
     idx = list(range(c["N"]))
-    if c["N"] <= 80:
+    if c["N"] <= 80 and "timeout" not in why:      # a hang is reported unshrunk: every probe would cost a timeout
         def still(sub):
             if len(sub) <= k:
                 return False
@@ -585,6 +587,9 @@ def evaluate(ctx, exe, mexe, cases, stats, structural=True):
         n = c["N"]
         T, exact = model_table(c)
         if r["crashed"] or not r["ended"]:
+            stats["aborted_cases"] = stats.get("aborted_cases", 0) + 1
+            if stats["aborted_cases"] > 3 and ctx.has_violation():
+                continue            # enough concrete replays of aborts; do not spend the budget on attribution
             # attribute the abort to one call of find_neighbors if possible
             hit = False
             for k in c["ks"]:
@@ -662,6 +667,9 @@ def evaluate(ctx, exe, mexe, cases, stats, structural=True):
                 ctx.mismatch({"gen": c["gen"], "N": n, "kind": c["kind"], "M": c.get("M"), "X": c.get("X")},
                              "cover-tree dump has a node whose max_dist / parent_dist is not an integer distance, "
                              "a negative scale or num_children != children.size(): %s" % str(ex)[:120])
+            if ctl is not None and n <= 200:
+                text.append("BUILD\n")
+                plan.append(("BT", ctl))
             if ctl is not None:
                 for kk in c["ks"]:
                     text.append("CT %d %d\n" % (kk + 1, len(ctl)) + "".join(ctl))
@@ -765,6 +773,19 @@ def evaluate(ctx, exe, mexe, cases, stats, structural=True):
                         ctx.mismatch(where, "cover-tree wrapper row %d k=%d: model distances %s, implementation %s"
                                      % (q, k, parts[2], implF[("C", k)].get(q)))
                         break
+            elif item[0] == "BT":
+                _, ctl = item
+                g = take("BT ", 1)[0].split()
+                mt = take("bt ", int(g[1]))
+                stats["ct_builds"] = stats.get("ct_builds", 0) + 1
+                real = [l.split()[1:] for l in ctl]
+                model = [l.split()[1:] for l in mt]
+                if real != model:
+                    j = next((i for i, (a, b) in enumerate(zip(real, model)) if a != b), min(len(real), len(model)))
+                    ctx.mismatch({"gen": c["gen"], "N": n, "kind": c["kind"], "M": c.get("M"), "X": c.get("X")},
+                                 "cover-tree construction: the model of batch_create builds a different tree; first "
+                                 "difference at preorder node %d: real (sample max_dist parent_dist scale children) %s, "
+                                 "model %s" % (j, real[j] if j < len(real) else None, model[j] if j < len(model) else None))
             elif item[0] == "CT":
                 _, kk, cq = item
                 g = take("CT ", 1)[0].split()
@@ -856,7 +877,7 @@ def run(ctx):
         if c["ks"]:
             cases.append(c)
     quick = ctx.quick
-    ngen = 900 if quick else 6000
+    ngen = 800 if quick else 6000
     nmax = 60 if quick else 120
     # exhaustive tiny part: every multiset of <= 5 points on {0,1,2} (line with multiplicities), all k
     tiny = []
@@ -914,7 +935,12 @@ def run(ctx):
     large = [c for c in cases if c["N"] > 150]
     for i in range(0, len(small), 150):
         n += evaluate(ctx, exe, mexe, small[i:i + 150], stats)
+        if stats.get("aborted_cases", 0) > 6 and ctx.has_violation():
+            ctx.note("stopped after %d aborted cases (hang / crash of the library)" % stats["aborted_cases"])
+            break
     for c in large:
+        if stats.get("aborted_cases", 0) > 6 and ctx.has_violation():
+            break
         n += evaluate(ctx, exe, mexe, [c], stats)
     if ctx.is_unshown():
         m, extra = search_phase(ctx, exe, mexe, rng, 1500 if quick else 6000, stats, hist)
